@@ -426,7 +426,7 @@ func runDriver(id string, chk *Check, tier string, thorough bool, seed int64) in
 		"outcome_classes":     total.Classes,
 		"workers":             n,
 	}
-	if total.States > 0 || chk.Level == "model_checking" {
+	if total.States > 0 && total.Transitions > 0 {
 		cov["states"] = total.States
 		cov["transitions"] = total.Transitions
 		cov["traces_validated_against_impl"] = total.Traces
